@@ -4,7 +4,7 @@
    will-relevant part of the state (object fields id / version / expiry / open / phase / will, the
    delayed-will table, the will publications and the closes among the outputs). *)
 From MV Require Import Base.Val Session.Lifecycle Session.LifeSpec Session.LifeKF Session.LifeBase Session.LifeInv
-  Session.LifeProofs13 Session.LifeProofs14 Session.LifeProofs15 Session.LifeProofs16.
+  Session.LifeProofs13 Session.LifeProofs14 Session.LifeProofs15 Session.LifeProofs15J Session.LifeProofs16.
 From Coq Require Import Lia ZifyBool ZifyN ZifyNat.
 Open Scope N_scope.
 
@@ -142,7 +142,7 @@ Lemma clear_inflights_wsame c s : wsame s (clear_inflights c s).
 Proof. apply clear_inflights_same_pr. intros; reflexivity. Qed.
 
 (* ---------- sendLWT, DisconnectClient, the handler tail ---------- *)
-Definition eff (s : state) (r : state * list out) (c : N) (g : cobj -> cobj) (tbl : list (bytes * dwill))
+Definition effp (s : state) (r : state * list out) (c : N) (g : cobj -> cobj) (tbl : list (bytes * dwill))
     (ws : list (N * msg)) (cl : list N) : Prop :=
   wupd s (fst r) c g /\ st_wills (fst r) = tbl /\ wills_of (snd r) = ws /\ closes (snd r) = cl.
 
@@ -156,7 +156,7 @@ Lemma wresp_lwt pub : wresp (g_lwt pub).
 Proof. unfold g_lwt. destruct pub; [apply (wresp_will will_clear_flag)|apply wresp_id]. Qed.
 
 Lemma send_lwt_eff k now c s o : get_obj c (st_objs s) = Some o ->
-  eff s (send_lwt k now c s) c (g_lwt (pub_now o))
+  effp s (send_lwt k now c s) c (g_lwt (pub_now o))
       (if reg_now o then aset (o_id o) (entry_of c now o) (st_wills s) else st_wills s)
       (if pub_now o then [(c, will_msg (o_will o))] else []) [].
 Proof.
@@ -186,7 +186,7 @@ Proof.
 Qed.
 
 Lemma disconnect_client_eff now c code s o : get_obj c (st_objs s) = Some o ->
-  eff s (disconnect_client now c code s) c (fun x => stopped x now) (st_wills s) [] (if o_open o then [c] else []).
+  effp s (disconnect_client now c code s) c (fun x => stopped x now) (st_wills s) [] (if o_open o then [c] else []).
 Proof.
   intro G. unfold disconnect_client. rewrite G. destruct (o_open o) eqn:OO.
   - split; [|repeat split]. cbn [fst]. apply (wupd_upd s c o (fun x => stopped x now)); [exact G|rewrite stopped_conn; apply (get_obj_conn _ _ _ G)].
@@ -201,13 +201,13 @@ Lemma wresp_const_will w : wresp (fun o => with_will o w).
 Proof. apply (wresp_will (fun _ => w)). Qed.
 
 Lemma handler_tail_eff k now c err s o : get_obj c (st_objs s) = Some o ->
-  eff s (handler_tail k now c err s) c (g_tail err (pub_now o) now)
+  effp s (handler_tail k now c err s) c (g_tail err (pub_now o) now)
       (if err && reg_now o then aset (o_id o) (entry_of c now o) (st_wills s) else st_wills s)
       (if err && pub_now o then [(c, will_msg (o_will o))] else [])
       (if err && o_open o then [c] else []).
 Proof.
   intro G. unfold handler_tail.
-  assert (A : eff s (if err then send_lwt k now c s else (s, [])) c (if err then g_lwt (pub_now o) else (fun x => x))
+  assert (A : effp s (if err then send_lwt k now c s else (s, [])) c (if err then g_lwt (pub_now o) else (fun x => x))
                 (if err && reg_now o then aset (o_id o) (entry_of c now o) (st_wills s) else st_wills s)
                 (if err && pub_now o then [(c, will_msg (o_will o))] else []) []).
   { destruct err; cbn [andb]; [apply send_lwt_eff, G|]. split; [apply wsame_wupd, same_pr_refl|repeat split]. }
@@ -229,7 +229,7 @@ Proof.
   pose proof (wupd_match s3 c (fun x => with_phase x PhDone) (fun x => eq_refl)) as U4.
   set (s4 := match get_obj c (st_objs s3) with Some x => upd_obj s3 (with_phase x PhDone) | None => s3 end) in *.
   assert (T4 : st_wills s4 = st_wills s3) by (subst s4; destruct (get_obj c (st_objs s3)); reflexivity).
-  change (eff s (s4, o1 ++ (if err && o_open x1 then [OClose c] else []) ++ [ODisconnected (o_id (g' x1)) (expire_cond (g' x1))]) c
+  change (effp s (s4, o1 ++ (if err && o_open x1 then [OClose c] else []) ++ [ODisconnected (o_id (g' x1)) (expire_cond (g' x1))]) c
             (g_tail err (pub_now o) now)
             (if err && reg_now o then aset (o_id o) (entry_of c now o) (st_wills s) else st_wills s)
             (if err && pub_now o then [(c, will_msg (o_will o))] else [])
@@ -440,7 +440,7 @@ Proof.
   set (s1 := if m_retain m then retain_msg k m s else s).
   assert (E1 : st_objs s1 = st_objs s /\ st_wills s1 = st_wills s) by (subst s1; destruct (m_retain m); [apply retain_msg_objs|auto]).
   destruct E1 as [EO EW]. destruct (deliver_quiet k m (st_index s1) s1) as (A & B & C & D). unfold publish.
-  split; [eapply wsame_trans; [apply wsame_objs, EO|exact A]|]. split; [congruence|auto].
+  split; [eapply wsame_trans; [apply wsame_objs, EO|exact A]|]. split; [rewrite B; exact EW|auto].
 Qed.
 
 Lemma tick_clients_quiet k now l : forall s, quiet s (tick_clients k now l s).
@@ -454,5 +454,717 @@ Proof.
   { subst s2. split.
     - eapply wsame_trans; [apply clear_inflights_wsame|]. eapply wsame_trans; [apply unsubscribe_client_wsame|apply wsame_objs; reflexivity].
     - cbn. rewrite unsubscribe_client_wills, clear_inflights_wills. reflexivity. }
-  destruct W2 as [W2 T2]. split; [eapply wsame_trans; eassumption|]. split; [congruence|]. split; [exact C|exact D].
+  destruct W2 as [W2 T2]. split; [eapply wsame_trans; eassumption|]. cbn [fst snd]. split; [rewrite B; exact T2|]. split; [exact C|exact D].
 Qed.
+
+(* ---------- sendDelayedLWT ---------- *)
+Definition wkn (o : cobj) := (o_id o, o_ver o, o_sei o, o_open o, o_phase o).
+
+(* objects keep everything but, possibly, their will, which may be cleared *)
+Definition wcleared (s s' : state) : Prop :=
+  forall c, match get_obj c (st_objs s), get_obj c (st_objs s') with
+            | Some o, Some o' => wkn o' = wkn o /\ (o_will o' = o_will o \/ o_will o' = no_will)
+            | None, None => True
+            | _, _ => False
+            end.
+
+Lemma wcleared_refl s : wcleared s s.
+Proof. intro c. destruct (get_obj c (st_objs s)); auto. Qed.
+
+Lemma wcleared_trans a b c : wcleared a b -> wcleared b c -> wcleared a c.
+Proof.
+  intros H1 H2 x. specialize (H1 x). specialize (H2 x).
+  destruct (get_obj x (st_objs a)) as [oa|], (get_obj x (st_objs b)) as [ob|], (get_obj x (st_objs c)) as [oc|]; try tauto.
+  destruct H1 as [K1 W1], H2 as [K2 W2]. split; [congruence|]. destruct W2 as [W2|W2]; [rewrite W2; exact W1|right; exact W2].
+Qed.
+
+Lemma wsame_wcleared s s' : wsame s s' -> wcleared s s'.
+Proof.
+  intros H c. specialize (H c). destruct (get_obj c (st_objs s)) as [o|], (get_obj c (st_objs s')) as [o'|]; cbn in H; try discriminate; auto.
+  assert (HH : wk o' = wk o) by congruence. destruct (wk_fields o' o HH) as (A & B & C & D & E & F).
+  split; [unfold wkn; rewrite A, B, C, D, E; reflexivity|left; exact F].
+Qed.
+
+Definition due (now : Z) (e : bytes * dwill) : bool := (d_due (snd e) <? now)%Z.
+
+Lemma tick_will_eff k now l : forall s,
+  wcleared s (fst (tick_will k now l s)) /\
+  st_wills (fst (tick_will k now l s)) = fold_left (fun t e => adel (fst e) t) (filter (due now) l) (st_wills s) /\
+  wills_of (snd (tick_will k now l s)) = map (fun e => (d_conn (snd e), d_msg (snd e))) (filter (due now) l) /\
+  closes (snd (tick_will k now l s)) = [].
+Proof.
+  induction l as [|[id d] r IH]; intro s; cbn [tick_will filter]; [split; [apply wcleared_refl|auto]|].
+  change (due now (id, d)) with (d_due d <? now)%Z. destruct (d_due d <? now)%Z; [|apply IH].
+  destruct (deliver_quiet k (d_msg d) (st_index s) s) as (Q1 & Q2 & Q3 & Q4). unfold publish.
+  destruct (deliver k (d_msg d) (st_index s) s) as [s1 o1]. cbn [fst snd] in *.
+  assert (A2 : wcleared s1 (fst (match client_of s1 id with
+                 | Some o => (upd_obj (if m_retain (d_msg d) then retain_msg k (d_msg d) s1 else s1) (with_will o no_will), [OWillSent id])
+                 | None => (s1, []) end)) /\
+               st_wills (fst (match client_of s1 id with
+                 | Some o => (upd_obj (if m_retain (d_msg d) then retain_msg k (d_msg d) s1 else s1) (with_will o no_will), [OWillSent id])
+                 | None => (s1, []) end)) = st_wills s1 /\
+               wills_of (snd (match client_of s1 id with
+                 | Some o => (upd_obj (if m_retain (d_msg d) then retain_msg k (d_msg d) s1 else s1) (with_will o no_will), [OWillSent id])
+                 | None => (s1, []) end)) = [] /\
+               closes (snd (match client_of s1 id with
+                 | Some o => (upd_obj (if m_retain (d_msg d) then retain_msg k (d_msg d) s1 else s1) (with_will o no_will), [OWillSent id])
+                 | None => (s1, []) end)) = []).
+  { destruct (client_of s1 id) as [o|] eqn:C; [|split; [apply wcleared_refl|auto]]. cbn [fst snd].
+    pose proof (client_of_obj _ _ _ C) as G.
+    set (s' := if m_retain (d_msg d) then retain_msg k (d_msg d) s1 else s1).
+    assert (E' : st_objs s' = st_objs s1 /\ st_wills s' = st_wills s1) by (subst s'; destruct (m_retain (d_msg d)); [apply retain_msg_objs|auto]).
+    destruct E' as [EO EW]. split; [|split; [cbn; exact EW|auto]].
+    intro c. unfold upd_obj. cbn [st_objs set_objs]. rewrite EO. destruct (N.eq_dec c (o_conn o)) as [->|NE].
+    - change (o_conn o) with (o_conn (with_will o no_will)) at 2. rewrite get_put_same, G. split; [reflexivity|right; reflexivity].
+    - rewrite get_put_other by (cbn; exact NE). destruct (get_obj c (st_objs s1)); auto. }
+  destruct (match client_of s1 id with
+            | Some o => (upd_obj (if m_retain (d_msg d) then retain_msg k (d_msg d) s1 else s1) (with_will o no_will), [OWillSent id])
+            | None => (s1, []) end) as [s2 o2]. cbn [fst snd] in A2. destruct A2 as (W2 & T2 & WS2 & C2).
+  specialize (IH (set_wills s2 (adel id (st_wills s2)))).
+  destruct (tick_will k now r (set_wills s2 (adel id (st_wills s2)))) as [s4 o4]. cbn [fst snd] in *.
+  destruct IH as (W4 & T4 & WS4 & C4). split; [|split; [|split]].
+  - eapply wcleared_trans; [apply wsame_wcleared, Q1|]. eapply wcleared_trans; [exact W2|].
+    eapply wcleared_trans; [|exact W4]. intro c. cbn. destruct (get_obj c (st_objs s2)); auto.
+  - rewrite T4. cbn [st_wills set_wills fold_left fst]. rewrite T2, Q2. reflexivity.
+  - change (wills_of (OWill (d_conn d) (d_msg d) :: o1 ++ o2 ++ o4)) with ((d_conn d, d_msg d) :: wills_of (o1 ++ o2 ++ o4)).
+    rewrite !wills_of_app, Q3, WS2, WS4. reflexivity.
+  - change (closes (OWill (d_conn d) (d_msg d) :: o1 ++ o2 ++ o4)) with (closes (o1 ++ o2 ++ o4)).
+    rewrite !closes_app, Q4, C2, C4. reflexivity.
+Qed.
+
+Lemma in_fold_adel (dl : list (bytes * dwill)) : forall (tbl : list (bytes * dwill)) (x : bytes * dwill),
+  In x (fold_left (fun t e => adel (fst e) t) dl tbl) <-> In x tbl /\ ~ In (fst x) (map fst dl).
+Proof.
+  induction dl as [|e r IH]; intros tbl x; cbn [fold_left map]; [tauto|].
+  rewrite IH. split.
+  - intros [I N]. apply in_adel in I. destruct I as [I NE]. split; [exact I|]. intros [E|E]; [congruence|exact (N E)].
+  - intros [I N]. split; [|intro E; apply N; right; exact E].
+    unfold adel. apply filter_In. split; [exact I|]. destruct (beq_bytes (fst x) (fst e)) eqn:B; [|reflexivity].
+    exfalso. apply N. left. symmetry. apply bb_eq, B.
+Qed.
+
+Lemma nodup_fold_adel (dl : list (bytes * dwill)) : forall tbl : list (bytes * dwill),
+  NoDup (map fst tbl) -> NoDup (map fst (fold_left (fun t e => adel (fst e) t) dl tbl)).
+Proof. induction dl as [|e r IH]; intros tbl ND; cbn [fold_left]; [exact ND|]. apply IH, nodup_adel, ND. Qed.
+
+(* with unique keys: the entries that stay are exactly those that were not due *)
+Lemma tick_table now (tbl : list (bytes * dwill)) (x : bytes * dwill) : NoDup (map fst tbl) ->
+  In x (fold_left (fun t e => adel (fst e) t) (filter (due now) tbl) tbl) <-> In x tbl /\ due now x = false.
+Proof.
+  intro ND. rewrite in_fold_adel. split; intros [I H]; (split; [exact I|]).
+  - destruct (due now x) eqn:D; [|reflexivity]. exfalso. apply H. apply in_map. apply filter_In. auto.
+  - intro IM. apply in_map_iff in IM. destruct IM as (y & EK & IY). apply filter_In in IY. destruct IY as [IY DY].
+    destruct x as [kx vx], y as [ky vy]. cbn in EK. subst ky.
+    pose proof (in_aget_nodup kx vx tbl ND I) as A1. pose proof (in_aget_nodup kx vy tbl ND IY) as A2.
+    rewrite A1 in A2. inversion A2; subst vy. congruence.
+Qed.
+
+(* ---------- inheritClientSession and the accepting attachClient ---------- *)
+Definition held (x : cobj) : cobj :=
+  if (match o_phase x with PhReading => true | _ => false end) && negb (o_open x) then with_phase x PhHeld else x.
+
+Lemma wresp_held : wresp held.
+Proof.
+  intros a b H. destruct (wk_fields a b H) as (A & B & C & D & E & F). unfold held. rewrite D, E.
+  destruct ((match o_phase b with PhReading => true | _ => false end) && negb (o_open b)); [apply (wresp_phase PhHeld), H|exact H].
+Qed.
+
+Lemma wupd_held s e :
+  wupd s (match get_obj e (st_objs s) with
+          | Some x => if (match o_phase x with PhReading => true | _ => false end) && negb (o_open x)
+                      then upd_obj s (with_phase x PhHeld) else s
+          | None => s end) e held.
+Proof.
+  destruct (get_obj e (st_objs s)) as [x|] eqn:G.
+  - destruct ((match o_phase x with PhReading => true | _ => false end) && negb (o_open x)) eqn:C.
+    + split; [intros c' N; apply (others_upd s (with_phase x PhHeld) e (get_obj_conn _ _ _ G) c' N)|]. split; [|congruence].
+      intros o G0. rewrite G in G0. inversion G0; subst o. exists (with_phase x PhHeld). split.
+      * rewrite <- (get_obj_conn _ _ _ G) at 1. change (o_conn x) with (o_conn (with_phase x PhHeld)). apply get_upd_same.
+      * unfold held. rewrite C. reflexivity.
+    + split; [intros; reflexivity|]. split; [|auto]. intros o G0. exists o. split; [exact G0|]. rewrite G in G0. inversion G0; subst o.
+      unfold held. rewrite C. reflexivity.
+  - split; [intros; reflexivity|]. split; [intros o G0; congruence|auto].
+Qed.
+
+Lemma inherit_eff k now p n s :
+  let '(s1, n1, sp, o1) := inherit k now p n s in
+  wk n1 = wk n /\ o_conn n1 = o_conn n /\ st_wills s1 = st_wills s /\ wills_of o1 = [] /\
+  match client_of s (o_id n) with
+  | Some eo => wupd s s1 (o_conn eo) (fun x => held (stopped x now)) /\ closes o1 = (if o_open eo then [o_conn eo] else [])
+  | None => wsame s s1 /\ closes o1 = []
+  end.
+Proof.
+  unfold inherit, client_of. destruct (aget (o_id n) (st_clients s)) as [e|]; [|repeat split].
+  destruct (get_obj e (st_objs s)) as [eo0|] eqn:G0; [|repeat split].
+  pose proof (get_obj_conn _ _ _ G0) as EC. rewrite EC.
+  destruct (disconnect_client_eff now e 142 s eo0 G0) as (U1 & T1 & W1 & C1).
+  destruct (disconnect_client now e 142 s) as [s1 o1]. cbn [fst snd] in *.
+  pose proof (wupd_held s1 e) as U2.
+  set (s1' := match get_obj e (st_objs s1) with
+              | Some x => if (match o_phase x with PhReading => true | _ => false end) && negb (o_open x)
+                          then upd_obj s1 (with_phase x PhHeld) else s1
+              | None => s1 end) in *.
+  assert (T2 : st_wills s1' = st_wills s1).
+  { subst s1'. destruct (get_obj e (st_objs s1)) as [x|]; [|reflexivity].
+    destruct ((match o_phase x with PhReading => true | _ => false end) && negb (o_open x)); reflexivity. }
+  pose proof (wupd_trans s s1 s1' e _ held wresp_held U1 U2) as U12.
+  assert (TK : forall z, wsame z (match get_obj e (st_objs z) with Some x => upd_obj z (with_tko x) | None => z end) /\
+                         st_wills (match get_obj e (st_objs z) with Some x => upd_obj z (with_tko x) | None => z end) = st_wills z).
+  { intro z. split; [apply (match_upd_same_pr wk e with_tko z); intro x; split; reflexivity|]. destruct (get_obj e (st_objs z)); reflexivity. }
+  destruct (cp_clean p || (o_clean eo0 && (o_ver eo0 <? 5))).
+  - split; [reflexivity|]. split; [reflexivity|]. split; [|split; [exact W1|split; [|exact C1]]].
+    + rewrite (proj2 (TK _)), clear_inflights_wills, unsubscribe_client_wills, T2. exact T1.
+    + apply (wupd_trans s s1' _ e _ (fun x => x) wresp_id U12). apply wsame_wupd.
+      eapply wsame_trans; [apply unsubscribe_client_wsame|]. eapply wsame_trans; [apply clear_inflights_wsame|apply (proj1 (TK _))].
+  - destruct (TK s1') as [TK1 TK2].
+    set (s2 := match get_obj e (st_objs s1') with Some x => upd_obj s1' (with_tko x) | None => s1' end) in *.
+    set (s2i := set_index s2 (fold_left (fun ix fq => ix_add (o_id n) (fst fq) (snd fq) ix) (o_subs eo0) (st_index s2))).
+    split; [reflexivity|]. split; [reflexivity|]. split; [|split; [exact W1|split; [|exact C1]]].
+    + rewrite clear_inflights_wills, unsubscribe_client_wills. subst s2i. cbn [st_wills set_index]. rewrite TK2, T2. exact T1.
+    + apply (wupd_trans s s1' _ e _ (fun x => x) wresp_id U12). apply wsame_wupd.
+      apply (wsame_trans s1' s2); [exact TK1|]. apply (wsame_trans s2 s2i); [apply wsame_objs; reflexivity|].
+      apply (wsame_trans s2i (unsubscribe_client e s2i)); [apply unsubscribe_client_wsame|apply clear_inflights_wsame].
+Qed.
+
+Definition maccept (k : caps) (s : state) (r : state * list out) (c : N) (now : Z) (p : cparams) (e : bytes) : Prop :=
+  let nw := parse_connect c p e in
+  (exists n2, get_obj c (st_objs (fst r)) = Some n2 /\ o_id n2 = e /\ o_ver n2 = cp_ver p /\ o_sei n2 = capN k (o_sei nw) /\
+              o_open n2 = true /\ o_phase n2 = PhReading /\ o_will n2 = o_will nw) /\
+  match client_of s e with
+  | Some eo =>
+      (forall c', c' <> c -> c' <> o_conn eo ->
+         option_map wk (get_obj c' (st_objs (fst r))) = option_map wk (get_obj c' (st_objs s))) /\
+      (exists o', get_obj (o_conn eo) (st_objs (fst r)) = Some o' /\ wk o' = wk (held (stopped eo now))) /\
+      closes (snd r) = (if o_open eo then [o_conn eo] else [])
+  | None =>
+      (forall c', c' <> c -> option_map wk (get_obj c' (st_objs (fst r))) = option_map wk (get_obj c' (st_objs s))) /\
+      closes (snd r) = []
+  end /\
+  st_wills (fst r) = adel e (st_wills s) /\ wills_of (snd r) = [].
+
+Lemma closes_resend_nil c l : closes (resend c l) = [].
+Proof. apply closes_resend. Qed.
+Lemma wills_of_resend c l : wills_of (resend c l) = [].
+Proof. induction l as [|m r IH]; cbn; [reflexivity|exact IH]. Qed.
+
+Lemma attach_accept_eff k c now p e s :
+  hasobj s c = false -> cp_trunc p = false -> validate_connect k p = 0 ->
+  maccept k s (attach k c now p true e s) c now p e.
+Proof.
+  intros HN T V. unfold attach. rewrite T, V. cbn [N.eqb negb].
+  pose proof (inherit_eff k now p (parse_connect c p e) s) as IE.
+  destruct (inherit k now p (parse_connect c p e) s) as [[[s1 n1] sp] o1].
+  change (o_id (parse_connect c p e)) with e in IE. destruct IE as (WN & CN & T1 & W1 & IE). cbn in CN.
+  set (n2 := if k_maxsei k <? o_sei n1 then with_sei n1 (k_maxsei k) true else n1).
+  destruct (wk_fields _ _ WN) as (I1 & V1 & S1 & O1 & P1 & WW1). cbn in I1, V1, S1, O1, P1.
+  assert (F2 : o_conn n2 = c /\ o_id n2 = e /\ o_ver n2 = cp_ver p /\ o_sei n2 = capN k (o_sei (parse_connect c p e)) /\
+               o_open n2 = true /\ o_phase n2 = PhReading /\ o_will n2 = o_will (parse_connect c p e)).
+  { subst n2. unfold capN. cbn [o_sei parse_connect]. rewrite <- S1. destruct (k_maxsei k <? o_sei n1); cbn; auto 10. }
+  destruct F2 as (C2 & I2 & V2 & S2 & O2 & P2 & WW2).
+  unfold maccept. cbn zeta. cbn [fst snd]. rewrite I2.
+  assert (GC : forall c', c' <> c -> get_obj c' (st_objs (upd_obj s1 n2)) = get_obj c' (st_objs s1)).
+  { intros c' N. unfold upd_obj. cbn. apply get_put_other. rewrite C2. exact N. }
+  split; [|split; [|split]].
+  - exists n2. split; [cbn; rewrite <- C2 at 1; apply get_put_same|auto 10].
+  - cbn [st_objs set_wills set_clients].
+    assert (HC : get_obj c (st_objs s) = None) by (unfold hasobj in HN; destruct (get_obj c (st_objs s)); [discriminate|reflexivity]).
+    destruct (client_of s e) as [eo|] eqn:CO.
+    + destruct IE as ((UA & UB & _) & CL).
+      assert (GE : get_obj (o_conn eo) (st_objs s) = Some eo).
+      { unfold client_of in CO. destruct (aget e (st_clients s)) as [ec|]; [|discriminate]. rewrite (get_obj_conn _ _ _ CO). exact CO. }
+      assert (NE : o_conn eo <> c) by (intro E; rewrite E in GE; congruence).
+      split; [|split].
+      * intros c' N1 N2. rewrite (GC c' N1). apply (UA c' N2).
+      * destruct (UB eo GE) as (o' & G' & E'). exists o'. split; [rewrite (GC _ NE); exact G'|exact E'].
+      * rewrite !closes_app. cbn [closes flat_map app]. rewrite CL. destruct sp; [rewrite closes_resend_nil|]; cbn; rewrite ?app_nil_r; reflexivity.
+    + destruct IE as (WS & CL). split.
+      * intros c' N1. rewrite (GC c' N1). apply WS.
+      * rewrite !closes_app. cbn [closes flat_map app]. rewrite CL. destruct sp; [rewrite closes_resend_nil|]; reflexivity.
+  - cbn. rewrite T1. reflexivity.
+  - rewrite !wills_of_app, W1. cbn [wills_of flat_map app]. destruct sp; [apply wills_of_resend|reflexivity].
+Qed.
+
+(* ---------- summary of one operation ---------- *)
+Definition quiet_op (s : state) (o : op) (outs : list out) : Prop :=
+  match o with
+  | OConnect c _ _ _ _ => success_connack (pkts_to c outs) = None
+  | ODisconnect c _ _ _ | ONetClose c _ | OSecondConnect c _ => reading s c = None
+  | OTeardown c _ => forall ob, get_obj c (st_objs s) = Some ob -> o_phase ob <> PhHeld
+  | OTickWill _ => False
+  | _ => True
+  end.
+
+Inductive msum (k : caps) (s : state) (o : op) (r : state * list out) : Prop :=
+| MS_quiet :
+    wsame s (fst r) -> st_wills (fst r) = st_wills s -> wills_of (snd r) = [] ->
+    (forall c, In c (closes (snd r)) -> hasobj s c = false) -> quiet_op s o (snd r) -> msum k s o r
+| MS_end c now ob normal :
+    ((exists rc sei, o = ODisconnect c now rc sei /\ normal = negb (bad_sei ob sei) && (rc =? 0)) \/
+     (o = ONetClose c now /\ normal = false) \/ (o = OSecondConnect c now /\ normal = false)) ->
+    reading s c = Some ob -> mend s r c now ob normal -> msum k s o r
+| MS_teardown c now ob :
+    o = OTeardown c now -> get_obj c (st_objs s) = Some ob -> o_phase ob = PhHeld -> mend s r c now ob false -> msum k s o r
+| MS_tick now :
+    o = OTickWill now -> wcleared s (fst r) ->
+    (forall x, In x (st_wills (fst r)) <-> In x (st_wills s) /\ due now x = false) ->
+    NoDup (map fst (st_wills (fst r))) ->
+    wills_of (snd r) = map (fun e => (d_conn (snd e), d_msg (snd e))) (filter (due now) (st_wills s)) ->
+    closes (snd r) = [] -> msum k s o r
+| MS_accept c now p e sp :
+    o = OConnect c now p true e -> hasobj s c = false -> memN c (st_used s) = false ->
+    success_connack (pkts_to c (snd r)) = Some sp -> maccept k s r c now p e -> msum k s o r.
+
+Lemma wsame_set_used s x : wsame s (set_used s x).
+Proof. apply wsame_objs. reflexivity. Qed.
+
+Theorem step_msum k s o : inv s -> NoDup (map fst (st_wills s)) -> msum k s o (step k s o).
+Proof.
+  intros [W X] ND. destruct o; cbn [step].
+  - (* OConnect *)
+    destruct (memN c (st_used s)) eqn:M.
+    { apply MS_quiet; cbn; auto; try apply same_pr_refl. intros x []. }
+    assert (HS : hasobj s c = false).
+    { destruct (hasobj s c) eqn:H; [|reflexivity]. apply (wf_used s W) in H. congruence. }
+    set (s0 := set_used s (c :: st_used s)).
+    pose proof (attach_shape k c now p auth_ok effid s0 HS) as A.
+    destruct (attach k c now p auth_ok effid s0) as [s' outs] eqn:AT.
+    destruct A as [[-> R]|(Ha & Ht & Hv & o1 & sp & l & EO & S1 & _)].
+    + apply MS_quiet; cbn [fst snd]; auto.
+      * apply wsame_set_used.
+      * destruct R as [->|(code & _ & ->)]; reflexivity.
+      * intros x I. apply in_closes in I. rewrite (refusal_closes_c c outs x R I). exact HS.
+      * cbn. apply refusal_no_success, R.
+    + subst auth_ok. apply (MS_accept k s _ (s', outs) c now p effid sp); auto.
+      * cbn [snd]. rewrite EO.
+        assert (P1 : pkts_to c o1 = []).
+        { apply (pkts_to_closed s0); [exact S1|]. unfold openc. unfold hasobj in HS. cbn. destruct (get_obj c (st_objs s)); [discriminate|reflexivity]. }
+        rewrite !pkts_to_app, P1, pkts_to_resend_same. cbn. rewrite N.eqb_refl. reflexivity.
+      * rewrite <- AT. apply (attach_accept_eff k c now p effid s0 HS Ht Hv).
+  - (* OBadFirst *)
+    destruct (memN c (st_used s)) eqn:M.
+    { apply MS_quiet; cbn; auto; try apply same_pr_refl. intros x []. }
+    apply MS_quiet; cbn [fst snd]; auto; [apply wsame_set_used| |exact I].
+    intros x [E|[]]. subst x. destruct (hasobj s c) eqn:H; [|reflexivity]. apply (wf_used s W) in H. congruence.
+  - (* ODisconnect *)
+    destruct (reading s c) as [ob|] eqn:R.
+    + apply (MS_end k s _ _ c now ob (negb (bad_sei ob sei) && (rc =? 0))); [left; exists rc, sei; auto|exact R|apply do_disconnect_mend, R].
+    + unfold do_disconnect. rewrite R. apply MS_quiet; cbn; auto; try apply same_pr_refl. intros x [].
+  - (* ONetClose *)
+    destruct (reading s c) as [ob|] eqn:R.
+    + apply (MS_end k s _ _ c now ob false); [right; left; auto|exact R|apply do_netclose_mend, R].
+    + unfold do_netclose. rewrite R. apply MS_quiet; cbn; auto; try apply same_pr_refl. intros x [].
+  - (* OTeardown *)
+    unfold do_teardown. destruct (get_obj c (st_objs s)) as [ob|] eqn:G.
+    2:{ apply MS_quiet; cbn; auto; try apply same_pr_refl; [intros x []|intros ob GG; congruence]. }
+    destruct (o_phase ob) eqn:PH.
+    + apply MS_quiet; cbn; auto; try apply same_pr_refl; [intros x []|intros ob' GG; rewrite G in GG; inversion GG; subst; congruence].
+    + pose proof (do_teardown_mend k c now s ob G PH) as M. unfold do_teardown in M. rewrite G, PH in M.
+      apply (MS_teardown k s _ _ c now ob); auto.
+    + apply MS_quiet; cbn; auto; try apply same_pr_refl; [intros x []|intros ob' GG; rewrite G in GG; inversion GG; subst; congruence].
+  - (* OTickClients *)
+    destruct (tick_clients_quiet k now (st_clients s) s) as (A & B & C & D).
+    apply MS_quiet; auto; try exact I. rewrite D. intros x [].
+  - (* OTickWill *)
+    destruct (tick_will_eff k now (st_wills s) s) as (A & B & C & D).
+    apply (MS_tick k s _ _ now); auto; [intro x; rewrite B; apply tick_table, ND|rewrite B; apply nodup_fold_adel, ND].
+  - (* OSubscribe *)
+    destruct (do_subscribe_quiet c f q s) as (A & B & C & D). apply MS_quiet; auto; try exact I. rewrite D. intros x [].
+  - (* OPublish *)
+    destruct (do_publish_quiet k c m s) as (A & B & C & D). apply MS_quiet; auto; try exact I. rewrite D. intros x [].
+  - (* OSecondConnect *)
+    destruct (reading s c) as [ob|] eqn:R.
+    + apply (MS_end k s _ _ c now ob false); [right; right; auto|exact R|apply do_second_connect_mend, R].
+    + unfold do_second_connect. rewrite R. apply MS_quiet; cbn; auto; try apply same_pr_refl. intros x [].
+Qed.
+
+(* =====================================================================================
+   Part 2: the history functions of the known-finding predicates, and running a monitor with the
+   history so far *)
+Lemma params_of_app c h r : params_of c (h ++ r) = match params_of c h with Some p => Some p | None => params_of c r end.
+Proof.
+  induction h as [|b t IH]; cbn [app params_of]; [reflexivity|].
+  destruct (b_op b); try exact IH. destruct (c0 =? c); [reflexivity|exact IH].
+Qed.
+
+Lemma view_of_app k c h r : forall cur, view_of k c cur (h ++ r) = view_of k c (view_of k c cur h) r.
+Proof. induction h as [|b t IH]; intro cur; cbn [app view_of]; [reflexivity|apply IH]. Qed.
+
+Lemma tol_app c h r : taken_over_live c (h ++ r) = taken_over_live c h || taken_over_live c r.
+Proof. induction h as [|b t IH]; cbn [app taken_over_live]; [reflexivity|]. rewrite IH, orb_assoc. reflexivity. Qed.
+
+Lemma upto_app (h0 : list obs) b r : upto (length h0) (h0 ++ b :: r) = h0 ++ [b].
+Proof. unfold upto. induction h0 as [|a t IH]; cbn; [reflexivity|]. f_equal. exact IH. Qed.
+
+Lemma nth_obs_app (h0 : list obs) b r : nth_obs (length h0) (h0 ++ b :: r) = Some b.
+Proof. induction h0 as [|a t IH]; cbn; [reflexivity|exact IH]. Qed.
+
+(* protocol sanity of an operation: only an MQTT 5 CONNECT carries a will delay, only an MQTT 5
+   connection sends a DISCONNECT with properties (the decoder cannot produce anything else) *)
+Definition sane_op (s : state) (o : op) : Prop :=
+  match o with
+  | OConnect _ _ p _ _ => cp_ver p <> 5 -> cp_willdelay p = 0
+  | ODisconnect c _ _ (Some _) => forall ob, reading s c = Some ob -> o_ver ob = 5
+  | _ => True
+  end.
+
+Fixpoint sane_ops (k : caps) (s : state) (ops : list op) : Prop :=
+  match ops with
+  | [] => True
+  | o :: r => sane_op s o /\ sane_ops k (fst (step k s o)) r
+  end.
+
+Lemma run_mon_hist {M} k (stepf : nat -> M -> obs -> M * list viol) (Good : list obs -> viol -> Prop)
+    (Inv : M -> state -> list obs -> Prop) :
+  (forall m s h0 o, Inv m s h0 -> sane_op s o ->
+     Inv (fst (stepf (length h0) m (obs_of (tstep_of k s o)))) (fst (step k s o)) (h0 ++ [obs_of (tstep_of k s o)]) /\
+     Forall (fun v => forall r, Good (h0 ++ obs_of (tstep_of k s o) :: r) v) (snd (stepf (length h0) m (obs_of (tstep_of k s o))))) ->
+  forall ops m s h0, Inv m s h0 -> sane_ops k s ops ->
+    Forall (Good (h0 ++ map obs_of (trace k s ops))) (run_mon stepf (length h0) m (map obs_of (trace k s ops))).
+Proof.
+  intros H ops. induction ops as [|o r IH]; intros m s h0 I S; [constructor|].
+  rewrite trace_cons. cbn [map run_mon]. destruct S as [S1 S2].
+  destruct (H m s h0 o I S1) as [I' F].
+  destruct (stepf (length h0) m (obs_of (tstep_of k s o))) as [m' v]. cbn [fst snd] in *.
+  apply Forall_app. split.
+  - eapply Forall_impl; [|exact F]. intros a HA. apply HA.
+  - specialize (IH m' (fst (step k s o)) (h0 ++ [obs_of (tstep_of k s o)]) I' S2).
+    rewrite app_length in IH. cbn [length] in IH. rewrite Nat.add_1_r in IH. rewrite <- app_assoc in IH. exact IH.
+Qed.
+
+(* ---------- the delayed-will table stays well formed ---------- *)
+Lemma wk_obj_back s s' c o' : option_map wk (get_obj c (st_objs s')) = option_map wk (get_obj c (st_objs s)) ->
+  get_obj c (st_objs s') = Some o' -> exists o, get_obj c (st_objs s) = Some o /\ wk o' = wk o.
+Proof. intros H G. rewrite G in H. destruct (get_obj c (st_objs s)) as [o|]; [|discriminate]. exists o. split; [reflexivity|]. cbn in H. congruence. Qed.
+Lemma wk_obj_fwd s s' c o : option_map wk (get_obj c (st_objs s')) = option_map wk (get_obj c (st_objs s)) ->
+  get_obj c (st_objs s) = Some o -> exists o', get_obj c (st_objs s') = Some o' /\ wk o' = wk o.
+Proof. intros H G. rewrite G in H. destruct (get_obj c (st_objs s')) as [o'|]; [|discriminate]. exists o'. split; [reflexivity|]. cbn in H. congruence. Qed.
+
+Lemma wcleared_fwd s s' c o : wcleared s s' -> get_obj c (st_objs s) = Some o ->
+  exists o', get_obj c (st_objs s') = Some o' /\ wkn o' = wkn o /\ (o_will o' = o_will o \/ o_will o' = no_will).
+Proof. intros H G. specialize (H c). rewrite G in H. destruct (get_obj c (st_objs s')) as [o'|]; [|destruct H]. exists o'. tauto. Qed.
+Lemma wcleared_back s s' c o' : wcleared s s' -> get_obj c (st_objs s') = Some o' ->
+  exists o, get_obj c (st_objs s) = Some o /\ wkn o' = wkn o /\ (o_will o' = o_will o \/ o_will o' = no_will).
+Proof. intros H G. specialize (H c). rewrite G in H. destruct (get_obj c (st_objs s)) as [o|]; [|destruct H]. exists o. tauto. Qed.
+
+Lemma wkn_fields a b : wkn a = wkn b -> o_id a = o_id b /\ o_ver a = o_ver b /\ o_sei a = o_sei b /\ o_open a = o_open b /\ o_phase a = o_phase b.
+Proof. unfold wkn. intro H. inversion H. auto 10. Qed.
+
+Lemma client_of_reg s e eo : wf s -> client_of s e = Some eo ->
+  aget e (st_clients s) = Some (o_conn eo) /\ get_obj (o_conn eo) (st_objs s) = Some eo /\ o_id eo = e.
+Proof.
+  intros W CO. unfold client_of in CO. destruct (aget e (st_clients s)) as [ec|] eqn:A; [|discriminate].
+  rewrite (get_obj_conn _ _ _ CO). split; [reflexivity|]. split; [exact CO|].
+  destruct (wf_reg s W e ec A) as (o & G & Ix & _). rewrite G in CO. congruence.
+Qed.
+
+Theorem step_wwf k s o : inv s -> wwf s -> wwf (fst (step k s o)).
+Proof.
+  intros V [ND WD]. pose proof (step_msum k s o V ND) as MS. destruct (step k s o) as [s' outs]. cbn [fst].
+  destruct V as [W X].
+  destruct MS as [WS TW _ _ _|c now ob normal _ R (OT & (o' & G' & I' & _ & _ & P' & _) & T & _)|c now ob _ G PH (OT & (o' & G' & I' & _ & _ & P' & _) & T & _)
+                 |now _ WC TI TN _ _|c now p e sp _ HS _ _ (_ & MA & T & _)]; cbn [fst snd] in *.
+  - split; [rewrite TW; exact ND|]. intros id d I. rewrite TW in I. destruct (WD id d I) as (ox & Gx & Ix & Px).
+    destruct (wk_obj_fwd s s' _ ox (WS _) Gx) as (ox' & Gx' & E). destruct (wk_fields _ _ E) as (A & _ & _ & _ & B & _).
+    exists ox'. split; [exact Gx'|split; congruence].
+  - destruct (reading_obj s c ob R) as [G _].
+    assert (OLD : forall id d, In (id, d) (st_wills s) -> exists ox, get_obj (d_conn d) (st_objs s') = Some ox /\ o_id ox = id /\ o_phase ox = PhDone).
+    { intros id d I. destruct (WD id d I) as (ox & Gx & Ix & Px). destruct (N.eq_dec (d_conn d) c) as [E|NE].
+      - rewrite E in *. rewrite G in Gx. inversion Gx; subst ox. exists o'. split; [exact G'|split; [congruence|exact P']].
+      - destruct (wk_obj_fwd s s' _ ox (OT _ NE) Gx) as (ox' & Gx' & EE). destruct (wk_fields _ _ EE) as (A & _ & _ & _ & B & _).
+        exists ox'. split; [exact Gx'|split; congruence]. }
+    destruct normal; [|destruct (reg_now ob)]; (split; [rewrite T|intros id d I; rewrite T in I]).
+    + apply nodup_adel, ND.
+    + apply in_adel in I. apply OLD, I.
+    + apply nodup_aset, ND.
+    + unfold aset in I. apply in_app_or in I. destruct I as [I|[I|[]]].
+      * apply in_adel in I. apply OLD, I.
+      * inversion I; subst id d. cbn [d_conn entry_of]. exists o'. split; [exact G'|split; [exact I'|exact P']].
+    + exact ND.
+    + apply OLD, I.
+  - assert (OLD : forall id d, In (id, d) (st_wills s) -> exists ox, get_obj (d_conn d) (st_objs s') = Some ox /\ o_id ox = id /\ o_phase ox = PhDone).
+    { intros id d I. destruct (WD id d I) as (ox & Gx & Ix & Px). destruct (N.eq_dec (d_conn d) c) as [E|NE].
+      - rewrite E in *. rewrite G in Gx. inversion Gx; subst ox. exists o'. split; [exact G'|split; [congruence|exact P']].
+      - destruct (wk_obj_fwd s s' _ ox (OT _ NE) Gx) as (ox' & Gx' & EE). destruct (wk_fields _ _ EE) as (A & _ & _ & _ & B & _).
+        exists ox'. split; [exact Gx'|split; congruence]. }
+    destruct (reg_now ob); (split; [rewrite T|intros id d I; rewrite T in I]).
+    + apply nodup_aset, ND.
+    + unfold aset in I. apply in_app_or in I. destruct I as [I|[I|[]]].
+      * apply in_adel in I. apply OLD, I.
+      * inversion I; subst id d. cbn [d_conn entry_of]. exists o'. split; [exact G'|split; [exact I'|exact P']].
+    + exact ND.
+    + apply OLD, I.
+  - split; [exact TN|]. intros id d I. apply TI in I. destruct I as [I _]. destruct (WD id d I) as (ox & Gx & Ix & Px).
+    destruct (wcleared_fwd s s' _ ox WC Gx) as (ox' & Gx' & E & _). destruct (wkn_fields _ _ E) as (A & _ & _ & _ & B).
+    exists ox'. split; [exact Gx'|split; congruence].
+  - split; [rewrite T; apply nodup_adel, ND|]. intros id d I. rewrite T in I. apply in_adel in I. destruct I as [I NE]. cbn [fst] in NE.
+    destruct (WD id d I) as (ox & Gx & Ix & Px).
+    assert (NC : d_conn d <> c) by (intro E; rewrite E in Gx; unfold hasobj in HS; rewrite Gx in HS; discriminate).
+    destruct (client_of s e) as [eo|] eqn:CO.
+    + destruct MA as (OT & _ & _). destruct (client_of_reg s e eo W CO) as (_ & GE & IE).
+      assert (NE2 : d_conn d <> o_conn eo) by (intro E; rewrite E in Gx; rewrite GE in Gx; inversion Gx; subst ox; congruence).
+      destruct (wk_obj_fwd s s' _ ox (OT _ NC NE2) Gx) as (ox' & Gx' & EE). destruct (wk_fields _ _ EE) as (A & _ & _ & _ & B & _).
+      exists ox'. split; [exact Gx'|split; congruence].
+    + destruct MA as (OT & _). destruct (wk_obj_fwd s s' _ ox (OT _ NC) Gx) as (ox' & Gx' & EE). destruct (wk_fields _ _ EE) as (A & _ & _ & _ & B & _).
+      exists ox'. split; [exact Gx'|split; congruence].
+Qed.
+
+(* =====================================================================================
+   Part 3: the coupling invariant between the specification's view (the statuses of mon16) and the
+   state of the model *)
+Definition srcE (s : state) (c : N) : Prop := exists id d, In (id, d) (st_wills s) /\ d_conn d = c.
+
+Definition req0 (k : caps) (p : cparams) : N := if cp_seiflag p then capN k (cp_sei p) else 0.
+Definition delay0 (p : cparams) : N := if cp_ver p =? 5 then cp_willdelay p else 0.
+
+Definition status_ok (k : caps) (s : state) (h0 : list obs) (p : cparams) (o : cobj) (x : sconn) : Prop :=
+  let c := x_conn x in
+  match x_wst x with
+  | WNone => w_flag (o_will o) = false /\ ~ srcE s c
+  | WArmed => x_open x = true
+  | WMust => o_phase o = PhHeld /\ taken_over_live c h0 = true
+  | WCancelled => (is_armed o \/ srcE s c) -> taken_over_live c h0 = true /\ (is_armed o -> 0 < w_delay (o_will o))
+  | WPending t due => o_phase o = PhDone /\ due = (t + Z.of_N (minN (x_delay x) (eff k x)))%Z /\
+                      (forall id d, In (id, d) (st_wills s) -> d_conn d = c -> d_due d = (t + Z.of_N (stored_delay p))%Z)
+  | WPublished | WNormal => o_phase o = PhDone /\ ~ srcE s c
+  | WFailed => o_phase o = PhDone /\ (srcE s c -> taken_over_live c h0 = true \/ (eff k x <? stored_delay p) = true)
+  end.
+
+Record pcr (k : caps) (s : state) (h0 : list obs) (x : sconn) (o : cobj) (p : cparams) : Prop := {
+  pc_get : get_obj (x_conn x) (st_objs s) = Some o;
+  pc_par : params_of (x_conn x) h0 = Some p;
+  pc_id : x_id x = o_id o;
+  pc_ver : x_ver x = cp_ver p;
+  pc_over : o_ver o = cp_ver p;
+  pc_clean : x_clean x = cp_clean p;
+  pc_will : x_will x = will_of p;
+  pc_delay : x_delay x = delay0 p;
+  pc_open : x_open x = o_open o;
+  pc_live : x_open x = true -> x_req x = req0 k p /\ o_sei o = req0 k p /\ (x_wst x = WNone \/ x_wst x = WArmed);
+  pc_flag : w_flag (o_will o) = true -> cp_willflag p = true /\ will_msg (o_will o) = will_of p /\ w_delay (o_will o) = stored_delay p;
+  pc_ent : forall id d, In (id, d) (st_wills s) -> d_conn d = x_conn x -> cp_willflag p = true /\ d_msg d = will_of p /\ 0 < stored_delay p;
+  pc_view : exists xv, view_of k (x_conn x) None h0 = Some xv /\ x_ver xv = x_ver x /\ x_clean xv = x_clean x /\
+                       x_req xv = x_req x /\ x_delay xv = x_delay x /\ x_id xv = x_id x;
+  pc_sane : cp_ver p <> 5 -> cp_willdelay p = 0;
+  pc_st : status_ok k s h0 p o x }.
+
+Definition pc (k : caps) (s : state) (h0 : list obs) (x : sconn) : Prop := exists o p, pcr k s h0 x o p.
+
+Record KI (k : caps) (m : m16) (s : state) (h0 : list obs) : Prop := {
+  ki_inv : inv s;
+  ki_wwf : wwf s;
+  ki_nd : NoDup (map x_conn (d_conns m));
+  ki_x : forall c x, find_x c (d_conns m) = Some x -> pc k s h0 x;
+  ki_o : forall c o, get_obj c (st_objs s) = Some o -> exists x, find_x c (d_conns m) = Some x;
+  ki_fresh : forall c, memN c (st_used s) = false -> params_of c h0 = None /\ view_of k c None h0 = None }.
+
+Lemma KI_init k : KI k {| d_conns := [] |} init [].
+Proof.
+  split; [apply inv_init|apply wwf_init|constructor|intros c x F; discriminate F|intros c o G; discriminate G|intros; split; reflexivity].
+Qed.
+
+(* ---------- explanations of violations ---------- *)
+Definition uncovered (t : N) : bool := (t =? V16_missing) || (t =? V16_missing_takeover) || (t =? V16_late) || (t =? V16_retain).
+
+Definition expl (k : caps) (hp : list obs) (b : obs) (v : viol) : Prop :=
+  uncovered (v_tag v) = true \/
+  ((v_tag v = V16_cancelled \/ v_tag v = V16_once) /\ late_registrant (v_conn v) hp = true) \/
+  (v_tag v = V16_once /\ exists p xv, params_of (v_conn v) hp = Some p /\ view_of k (v_conn v) None hp = Some xv /\
+                                      cp_willflag p = true /\ (eff k xv <? stored_delay p) = true) \/
+  (v_tag v = V16_early /\ exists p xv, params_of (v_conn v) hp = Some p /\ view_of k (v_conn v) None hp = Some xv /\
+                                       cp_willflag p = true /\ (stored_delay p <? minN (x_delay xv) (eff k xv)) = true) \/
+  (v_tag v = V16_lost_clean /\ exists c t p a id, b_op b = OConnect c t p a id /\ cp_clean p = true).
+
+Definition good (k : caps) (h : list obs) (v : viol) : Prop := uncovered (v_tag v) = true \/ kf_of k h v <> None.
+
+Lemma expl_good k h b v : expl k (upto (v_step v) h) b v -> nth_obs (v_step v) h = Some b -> good k h v.
+Proof.
+  intros E NB. destruct E as [U|[[T L]|[(T & p & xv & P & VW & WF & LT)|[(T & p & xv & P & VW & WF & LT)|(T & c & t & p & a & id & OP & CL)]]]].
+  - left. exact U.
+  - right. unfold kf_of. assert (K : KF_C16_takeover_delayed k h v = true).
+    { unfold KF_C16_takeover_delayed. rewrite L. destruct T as [-> | ->]; cbn; reflexivity. }
+    rewrite K. discriminate.
+  - right. unfold kf_of. destruct (KF_C16_takeover_delayed k h v); [discriminate|].
+    assert (K : KF_C16_delay_uncapped k h v = true).
+    { unfold KF_C16_delay_uncapped. rewrite P, VW, WF, LT, T. reflexivity. }
+    rewrite K. discriminate.
+  - right. unfold kf_of. destruct (KF_C16_takeover_delayed k h v); [discriminate|]. destruct (KF_C16_delay_uncapped k h v); [discriminate|].
+    assert (K : KF_C16_delay_fixed_at_connect k h v = true).
+    { unfold KF_C16_delay_fixed_at_connect. rewrite P, VW, WF, LT, T. reflexivity. }
+    rewrite K. discriminate.
+  - right. unfold kf_of. destruct (KF_C16_takeover_delayed k h v); [discriminate|]. destruct (KF_C16_delay_uncapped k h v); [discriminate|].
+    destruct (KF_C16_delay_fixed_at_connect k h v); [discriminate|].
+    assert (K : KF_C16_clean_reconnect k h v = true).
+    { unfold KF_C16_clean_reconnect. rewrite NB, OP, CL, T. reflexivity. }
+    rewrite K. discriminate.
+Qed.
+
+(* ---------- lists of specification entries keyed by connection ---------- *)
+Lemma find_some_in c l x : find_x c l = Some x -> In x l.
+Proof.
+  induction l as [|y r IH]; cbn; [discriminate|]. destruct (x_conn y =? c); [intro H; inversion H; left; reflexivity|intro H; right; apply IH, H].
+Qed.
+
+Lemma find_none_keys c l : find_x c l = None <-> ~ In c (map x_conn l).
+Proof.
+  induction l as [|y r IH]; cbn; [tauto|]. destruct (x_conn y =? c) eqn:E.
+  - apply N.eqb_eq in E. split; [discriminate|intro H; exfalso; apply H; left; exact E].
+  - apply N.eqb_neq in E. rewrite IH. tauto.
+Qed.
+
+Lemma find_in c l x : NoDup (map x_conn l) -> In x l -> x_conn x = c -> find_x c l = Some x.
+Proof.
+  induction l as [|y r IH]; cbn; [intros _ []|]. intros ND I E. inversion ND as [|? ? NI ND']; subst.
+  destruct I as [->|I]; [rewrite N.eqb_refl; reflexivity|].
+  destruct (x_conn y =? x_conn x) eqn:EE; [apply N.eqb_eq in EE; exfalso; apply NI; rewrite EE; apply in_map, I|apply IH; auto].
+Qed.
+
+Lemma put_keys_same x l y : find_x (x_conn x) l = Some y -> map x_conn (put_x x l) = map x_conn l.
+Proof.
+  induction l as [|z r IH]; cbn; [discriminate|]. destruct (x_conn z =? x_conn x) eqn:E; cbn.
+  - intros _. apply N.eqb_eq in E. congruence.
+  - intro F. rewrite (IH F). reflexivity.
+Qed.
+
+Lemma put_keys_new x l : find_x (x_conn x) l = None -> map x_conn (put_x x l) = map x_conn l ++ [x_conn x].
+Proof.
+  induction l as [|z r IH]; cbn; [reflexivity|]. destruct (x_conn z =? x_conn x) eqn:E; cbn; [discriminate|].
+  intro F. rewrite (IH F). reflexivity.
+Qed.
+
+Lemma nodup_put x l : NoDup (map x_conn l) -> NoDup (map x_conn (put_x x l)).
+Proof.
+  intro ND. destruct (find_x (x_conn x) l) as [y|] eqn:F.
+  - rewrite (put_keys_same x l y F). exact ND.
+  - rewrite (put_keys_new x l F). apply nodup_snoc; [exact ND|apply find_none_keys, F].
+Qed.
+
+Lemma map_keys (f : sconn -> sconn) l : (forall x, x_conn (f x) = x_conn x) -> map x_conn (map f l) = map x_conn l.
+Proof. intro H. rewrite map_map. apply map_ext. exact H. Qed.
+
+Lemma find_put c x l : find_x c (put_x x l) = if x_conn x =? c then Some x else find_x c l.
+Proof.
+  destruct (x_conn x =? c) eqn:E.
+  - apply N.eqb_eq in E. subst c. apply find_put_same.
+  - apply N.eqb_neq in E. apply find_put_other. congruence.
+Qed.
+
+(* ---------- the publications of a step ---------- *)
+Definition vstat (i : nat) (b : obs) (x : sconn) (c : N) : list viol :=
+  match x_wst x with
+  | WPublished | WFailed => [mkv V16_once i c (x_id x)]
+  | WNormal => [mkv V16_after_normal i c (x_id x)]
+  | WCancelled => [mkv V16_cancelled i c (x_id x)]
+  | WNone => [mkv V16_unexpected i c (x_id x)]
+  | WArmed => [mkv V16_unexpected i c (x_id x)]
+  | WMust => []
+  | WPending _ due =>
+      match op_now (b_op b) with
+      | Some now => if (due <=? now)%Z then [] else [mkv V16_early i c (x_id x)]
+      | None => [mkv V16_unexpected i c (x_id x)]
+      end
+  end.
+Definition vcont (i : nat) (x : sconn) (c : N) (mm : msg) : list viol :=
+  if beq_msg mm (x_will x) then [] else [mkv V16_content i c (x_id x)].
+Definition vret (k : caps) (i : nat) (b : obs) (x : sconn) (c : N) (mm : msg) (r : list (N * msg)) : list viol :=
+  if m_retain mm && k_retain k && negb (existsb (fun w => beq_bytes (m_topic (snd w)) (m_topic mm) && m_retain (snd w)) r) then
+    match aget (m_topic mm) (sn_retained (b_post b)) with
+    | Some pl => if beq_bytes pl (m_payload mm) then [] else [mkv V16_retain i c (x_id x)]
+    | None => match m_payload mm with [] => [] | _ => [mkv V16_retain i c (x_id x)] end
+    end
+  else [].
+
+Lemma m16_pubs_none k i b conns c mm r : find_x c conns = None ->
+  m16_pubs k i b conns ((c, mm) :: r) = (fst (m16_pubs k i b conns r), mkv V16_unexpected i c [] :: snd (m16_pubs k i b conns r)).
+Proof. intro F. cbn [m16_pubs]. rewrite F. destruct (m16_pubs k i b conns r); reflexivity. Qed.
+
+Lemma m16_pubs_some k i b conns c mm r x : find_x c conns = Some x ->
+  m16_pubs k i b conns ((c, mm) :: r) =
+  (fst (m16_pubs k i b (put_x (set_wst x WPublished) conns) r),
+   vstat i b x c ++ vcont i x c mm ++ vret k i b x c mm r ++ snd (m16_pubs k i b (put_x (set_wst x WPublished) conns) r)).
+Proof. intro F. cbn [m16_pubs]. rewrite F. cbv zeta. destruct (m16_pubs k i b (put_x (set_wst x WPublished) conns) r); reflexivity. Qed.
+
+Lemma vret_tag k i b x c mm r : Forall (fun v => v_tag v = V16_retain) (vret k i b x c mm r).
+Proof.
+  unfold vret. destruct (_ && _); [|constructor]. destruct (aget _ _); [destruct (beq_bytes _ _); repeat constructor|].
+  destruct (m_payload mm); repeat constructor.
+Qed.
+
+Lemma m16_pubs_ok k i b (Q : viol -> Prop) :
+  (forall v, v_tag v = V16_retain -> Q v) ->
+  forall ws conns, NoDup (map fst ws) ->
+   (forall c mm, In (c, mm) ws -> match find_x c conns with
+        | None => Q (mkv V16_unexpected i c [])
+        | Some x => Forall Q (vstat i b x c) /\ Forall Q (vcont i x c mm) end) ->
+   Forall Q (snd (m16_pubs k i b conns ws)) /\
+   (forall c, find_x c (fst (m16_pubs k i b conns ws)) =
+              match find_x c conns with Some x => Some (if memN c (map fst ws) then set_wst x WPublished else x) | None => None end) /\
+   map x_conn (fst (m16_pubs k i b conns ws)) = map x_conn conns.
+Proof.
+  intro QR. induction ws as [|[c mm] r IH]; intros conns ND H.
+  - cbn [m16_pubs fst snd map]. split; [constructor|]. split; [|reflexivity]. intro c. destruct (find_x c conns); reflexivity.
+  - inversion ND as [|? ? NI ND']; subst. pose proof (H c mm (or_introl eq_refl)) as HC.
+    destruct (find_x c conns) as [x|] eqn:F.
+    + rewrite (m16_pubs_some k i b conns c mm r x F). cbn [fst snd].
+      assert (XC : x_conn (set_wst x WPublished) = c) by (cbn; apply (find_x_conn _ _ _ F)).
+      destruct (IH (put_x (set_wst x WPublished) conns) ND') as (A & B & C).
+      { intros c2 mm2 I2. assert (NE : c2 <> c) by (intro E; subst c2; apply NI; apply (in_map fst) in I2; exact I2).
+        rewrite find_put, XC. destruct (c =? c2) eqn:E; [apply N.eqb_eq in E; congruence|]. apply (H c2 mm2). right. exact I2. }
+      split; [|split].
+      * destruct HC as [HS HT]. apply Forall_app. split; [exact HS|]. apply Forall_app. split; [exact HT|]. apply Forall_app. split; [|exact A].
+        eapply Forall_impl; [|apply vret_tag]. intros v T. apply QR, T.
+      * intro c2. rewrite B, find_put, XC. cbn [map fst]. rewrite used_cons_l. destruct (c =? c2) eqn:E.
+        -- apply N.eqb_eq in E. subst c2. rewrite F, N.eqb_refl. cbn [orb].
+           assert (M : memN c (map fst r) = false) by (destruct (memN c (map fst r)) eqn:M; [apply memN_true in M; contradiction|reflexivity]).
+           rewrite M. reflexivity.
+        -- rewrite N.eqb_sym, E. cbn [orb]. reflexivity.
+      * rewrite C. apply (put_keys_same _ conns x). rewrite XC. exact F.
+    + rewrite (m16_pubs_none k i b conns c mm r F). cbn [fst snd].
+      destruct (IH conns ND') as (A & B & C).
+      { intros c2 mm2 I2. apply (H c2 mm2). right. exact I2. }
+      split; [constructor; [exact HC|exact A]|]. split; [|exact C].
+      intro c2. rewrite B. cbn [map fst]. rewrite used_cons_l. destruct (find_x c2 conns) as [y|] eqn:F2; [|reflexivity].
+      destruct (c2 =? c) eqn:E; [apply N.eqb_eq in E; congruence|]. reflexivity.
+Qed.
+
+(* ---------- a connection that the step does not concern ---------- *)
+Lemma is_armed_back o o' : wkn o' = wkn o -> (o_will o' = o_will o \/ w_flag (o_will o') = false) -> is_armed o' -> is_armed o /\ o_will o' = o_will o.
+Proof.
+  intros K W [F P]. destruct W as [W|W]; [|congruence]. destruct (wkn_fields _ _ K) as (_ & _ & _ & _ & PH).
+  split; [split; congruence|exact W].
+Qed.
+
+Lemma tol_mono c h r : taken_over_live c h = true -> taken_over_live c (h ++ r) = true.
+Proof. intro H. rewrite tol_app, H. reflexivity. Qed.
+
+Lemma pc_frame k s s' h0 b x o p :
+  pcr k s h0 x o p ->
+  (exists o', get_obj (x_conn x) (st_objs s') = Some o' /\ wkn o' = wkn o /\ (o_will o' = o_will o \/ w_flag (o_will o') = false)) ->
+  (forall id d, In (id, d) (st_wills s') -> d_conn d = x_conn x -> In (id, d) (st_wills s)) ->
+  (forall xv, view_of k (x_conn x) None h0 = Some xv -> view_step k (x_conn x) (Some xv) b = Some xv) ->
+  pc k s' (h0 ++ [b]) x.
+Proof.
+  intros [G PA I V OV CL WI DL OP LV FL EN (xv & VW & VX) SN ST] (o' & G' & K & WW) SUB VS.
+  destruct (wkn_fields _ _ K) as (KI1 & KV & KS & KO & KP).
+  assert (SE : srcE s' (x_conn x) -> srcE s (x_conn x)).
+  { intros (id & d & II & DC). exists id, d. split; [apply SUB; assumption|exact DC]. }
+  exists o', p. split; try congruence; try assumption.
+  - rewrite params_of_app, PA. reflexivity.
+  - intro XO. destruct (LV XO) as (A & B & C). split; [exact A|split; [congruence|exact C]].
+  - intro F'. destruct WW as [WW|WW]; [|congruence]. rewrite WW in *. apply FL, F'.
+  - intros id d II DC. apply (EN id d); [apply SUB; assumption|exact DC].
+  - exists xv. split; [|exact VX]. rewrite view_of_app, VW. cbn [view_of]. apply VS, VW.
+  - unfold status_ok in *. destruct (x_wst x).
+    + destruct ST as [A B]. split; [destruct WW as [WW|WW]; congruence|intro H; apply B, SE, H].
+    + exact ST.
+    + destruct ST as [A B]. split; [congruence|apply tol_mono, B].
+    + destruct ST as (A & B & C). split; [congruence|]. split; [exact B|]. intros id d II DC. apply (C id d); [apply SUB; assumption|exact DC].
+    + destruct ST as [A B]. split; [congruence|intro H; apply B, SE, H].
+    + destruct ST as [A B]. split; [congruence|intro H; apply B, SE, H].
+    + intros [AR|SR].
+      * destruct (is_armed_back o o' K WW AR) as [AR0 EW]. destruct (ST (or_introl AR0)) as [T D]. split; [apply tol_mono, T|]. intros _. rewrite EW. apply D, AR0.
+      * destruct (ST (or_intror (SE SR))) as [T D]. split; [apply tol_mono, T|]. intro AR. destruct (is_armed_back o o' K WW AR) as [AR0 EW]. rewrite EW. apply D, AR0.
+    + destruct ST as [A B]. split; [congruence|]. intro H. destruct (B (SE H)) as [T|U]; [left; apply tol_mono, T|right; exact U].
+Qed.
+
+Lemma wk_wkn a b : wk a = wk b -> wkn a = wkn b /\ o_will a = o_will b.
+Proof. intro H. destruct (wk_fields _ _ H) as (A & B & C & D & E & F). split; [unfold wkn; congruence|exact F]. Qed.
